@@ -16,6 +16,14 @@ import (
 // C14: early abandonment and re-iteration of one sequence value
 
 func (e *Engine) doIter(s *slot, op Op) error {
+	err := e.doIter1(s, op)
+	if _, isViol := err.(*Violation); isViol && !e.asserted("iter") {
+		return nil // consumption pattern only (C15 brackets it); the outcome is C14's business
+	}
+	return err
+}
+
+func (e *Engine) doIter1(s *slot, op Op) error {
 	what := showOp(e.Kinds(), op)
 	if op.M == "prefix" && !s.kind.HasPrefix() {
 		return nil
